@@ -432,7 +432,16 @@ def run(ctx):
     r4.exactly('Locate_literal_sites(into_locate role)', len(lits), 1)
     for fl, fn, n in lits:
         prm = sx.pat_idents(fn['sig']['params'][0]['pat'])[0] if fn['sig']['params'] else None
-        flds = {x['n']: sx.render(x['e']).replace(' ', '') for x in n['fields']}
+        # field values named through locals bound once (`let offset = s.location_offset(); .. Locate { offset, line, len }`) are resolved
+        once_ = {}
+        for st_ in sx.walk(fn['body']):
+            if st_.get('k') == 'let' and 'pat' in st_ and 'init' in st_ and st_['pat'].get('k') == 'ident':
+                once_.setdefault(st_['pat']['n'], []).append(st_['init'])
+        def fres_(e_):
+            if sx.is_path(e_) and len(once_.get(e_['p'], [])) == 1 and e_['p'] != prm:
+                return once_[e_['p']][0]
+            return e_
+        flds = {x['n']: sx.render(fres_(x['e'])).replace(' ', '') for x in n['fields']}
         r4.inst('into_locate', {'fn': fn['name'], 'fields': flds})
         ok = flds.get('offset') == '%s.location_offset()' % prm and flds.get('line') == '%s.location_line()' % prm and \
             flds.get('len') in ('%s.fragment().len()' % prm, '%s.input_len()' % prm, '%s.fragment().as_bytes().len()' % prm)
